@@ -387,7 +387,7 @@ void harness(void)
                "C14.agree.ends-with-buffer.reach");
     VP_WITNESS(cls == CUTOFF && avail >= 1 && rcb < 0 && rcs < 0 && rco < 0,
                "C14.agree.cutoff.reach");
-#if N >= 2
+#if N >= 3
     VP_WITNESS(cls == TERMINATED && !canonical && rcb >= 2 && rcs == rcb && off > 0,
                "C14.agree.noncanonical.reach");
 #endif
